@@ -246,7 +246,7 @@ def simulate(ctx, name, q, pubs, subs, bufs, reqs, maxids, nchunks, num, depth, 
     return progs[:num]
 
 
-WITNESS_FILE = os.path.join(vp.SPEC, "api", "witnesses.json")
+WITNESS_FILE = os.path.join(vp.SPEC, "api", "PubSubWitnesses.json")
 
 
 def witness_plan():
@@ -272,7 +272,7 @@ def witness_plan():
 
 def witnesses(ctx, targets, regenerate):
     """Witness programs for `targets`; those in `regenerate` are produced now by TLC (trap invariants), the
-    others come from the committed cache spec/api/witnesses.json (itself written by `regen_witnesses`).
+    others come from the committed cache spec/api/PubSubWitnesses.json (itself written by `regen_witnesses`).
     A witness is an INPUT program; its verdict comes from validating the recorded trace."""
     plan = witness_plan()
     cache = {}
@@ -455,7 +455,7 @@ def mc_phase(ctx, pid, insts, code_dependent):
     ns = read_chunks(ctx, [i[1] for i in insts], "mc")
     for (name, q, pubs, subs, bufs, reqs, maxids, view), n in zip(insts, ns):
         res = model_check(ctx, pid, name, q, pubs, subs, bufs, reqs, maxids, n, view=view,
-                          timeout=1500 if ctx.quick else 2400)
+                          timeout=1500 if ctx.quick else 3600)
         if res.violated:
             if code_dependent and INV_OWNER.get(res.violated) in ("C02", "C08"):
                 report_mc_violation(ctx, pid, name, q, n, res)
@@ -511,8 +511,11 @@ def roundtrip(ctx, pid, targets, tail_fn, need_events, nsim, depth, ngen, steps,
     ctx.coverage["qos_cells_total"] = len(qos_grid())
     if summ["panics"]:
         ctx.note(f"{summ['panics']} run(s) of the code under test panicked (recorded as unexplainable events)")
-    require_counts(summ, need_events, f"{pid} round trip")
+    before = len(ctx.violations)
     validate(ctx, pid, trace, jobs, "roundtrip")
+    if len(ctx.violations) == before:
+        # vacuity guard (only meaningful when the executions conform)
+        require_counts(summ, need_events, f"{pid} round trip")
     recs = vp.read_ndjson(trace)
     runs = vp.split_runs(recs)
     if len(ctx.samples) < 6 and runs:
@@ -561,7 +564,7 @@ def replay_common(ctx, pid, path):
 
 
 def regen_witnesses():
-    """python3 lib/ps_common.py regen  - rewrites spec/api/witnesses.json (run after changing PubSub.tla)"""
+    """python3 lib/ps_common.py regen  - rewrites spec/api/PubSubWitnesses.json (run after changing PubSub.tla)"""
     ctx = vp.Ctx("PSWIT", "thorough", 1)
     vp.cargo_build([DRIVER])
     plan = witness_plan()
